@@ -10,6 +10,7 @@ import (
 	libaudit "github.com/elastic/go-libaudit/v2"
 
 	"verif/engine/ev"
+	"verif/engine/guard"
 	"verif/engine/ksim"
 )
 
@@ -49,6 +50,30 @@ type setter struct {
 	call func(c *libaudit.AuditClient, v uint32, wm libaudit.WaitMode) error
 	val  func(v uint32) uint32 // wire value expected for argument v
 	dom  string
+}
+
+// labelChooser answers named choice points with a fixed non-default answer.
+type labelChooser map[string]int
+
+func (l labelChooser) Choose(label string, n int) int {
+	if v, ok := l[label]; ok && v < n {
+		return v
+	}
+	return 0
+}
+
+var gRegion *guard.Region
+
+func guardRegion() *guard.Region {
+	if gRegion == nil {
+		r, err := guard.New(4096)
+		if err != nil {
+			panic(err)
+		}
+		gRegion = r
+	}
+	gRegion.Poison(0xAA)
+	return gRegion
 }
 
 func setters() []setter {
@@ -241,6 +266,34 @@ func checkC16(tier string) int {
 			rep("getstatus-request", "GetStatus sent %d requests; first: type %d flags %#x payload %d bytes; want one AUDIT_GET=1000 with REQUEST|ACK and no payload", len(sim.Sends), s.Type, s.Flags, len(s.Data))
 		}
 	}
+	// the AUDIT_GET reply overtakes its acknowledgement (the kernel never does that): refusing is fine,
+	// success must still carry the kernel's fields - with ONE reused receive buffer a reply that is only
+	// remembered by reference is overwritten by the acknowledgement read after it
+	for _, p := range pats {
+		sim := ksim.New(labelChooser{"replace-ack": 5})
+		sim.Status = p
+		c := &libaudit.AuditClient{Netlink: sim}
+		st, err := c.GetStatus()
+		evals++
+		dataFirst := false
+		for _, d := range sim.Devs {
+			if d == ksim.DevDataFirst {
+				dataFirst = true
+			}
+		}
+		if !dataFirst {
+			rep("harness", "data-before-ack was not injected (menu changed?)")
+			break
+		}
+		if err == nil && st != nil {
+			got := [11]uint32{uint32(st.Mask), st.Enabled, st.Failure, st.PID, st.RateLimit, st.BacklogLimit, st.Lost, st.Backlog, st.FeatureBitmap, st.BacklogWaitTime, st.BacklogWaitTimeActual}
+			if got != p {
+				rep("getstatus-reordered-reply", "the AUDIT_GET reply arrived before its acknowledgement; GetStatus reported success with %v, the kernel sent %v", got, p)
+				continue
+			}
+		}
+		nontrivial++
+	}
 	// GetStatus with reply payloads of every length 0..80: shorter than the 2.6.32 layout must be
 	// an error, longer ones decode the fields present (rest zero), the tail is ignored
 	for n := 0; n <= 80; n++ {
@@ -251,8 +304,14 @@ func checkC16(tier string) int {
 		sim := ksim.New(nil)
 		sim.NoDeviations = true
 		sim.StatusRaw = raw
+		sim.Guard = true // the reply ends on the last byte of a mapped page
 		c := &libaudit.AuditClient{Netlink: sim}
-		st, err := c.GetStatus()
+		var st *libaudit.AuditStatus
+		var err error
+		if r := guard.Call(func() { st, err = c.GetStatus() }); r != nil {
+			rep("getstatus-reads-outside", "GetStatus on a %d-byte reply placed against an inaccessible page panicked/faulted: %v", n, r)
+			continue
+		}
 		evals++
 		if n < minStatus {
 			if err == nil || st != nil {
@@ -374,11 +433,17 @@ func checkC16(tier string) int {
 					content[i] = byte(0x80 ^ i*7)
 				}
 			}
-			var results [3]libaudit.AuditStatus
-			var errs [3]error
-			for place := 0; place < 3; place++ {
+			var results [5]libaudit.AuditStatus
+			var errs [5]error
+			for place := 0; place < 5; place++ {
 				var buf []byte
 				switch place {
+				case 3:
+					// last byte on the last byte of a page, the next page inaccessible
+					buf = guardRegion().AtEnd(content)
+				case 4:
+					// first byte on the first byte of a page, the previous page inaccessible
+					buf = guardRegion().AtStart(content)
 				case 0:
 					buf = make([]byte, n) // cap == len
 					copy(buf, content)
@@ -396,19 +461,18 @@ func checkC16(tier string) int {
 					buf = big[32 : 32+n]
 				}
 				results[place] = libaudit.AuditStatus{Mask: 0xDEAD, Enabled: 0xDEAD, Failure: 0xDEAD, PID: 0xDEAD, RateLimit: 0xDEAD, BacklogLimit: 0xDEAD, Lost: 0xDEAD, Backlog: 0xDEAD, FeatureBitmap: 0xDEAD, BacklogWaitTime: 0xDEAD, BacklogWaitTimeActual: 0xDEAD}
-				func() {
-					defer func() {
-						if r := recover(); r != nil {
-							errs[place] = fmt.Errorf("panic: %v", r)
-							rep("fromwire-panic", "FromWireFormat panicked on a %d-byte buffer: %v", n, r)
-						}
-					}()
-					errs[place] = results[place].FromWireFormat(buf)
-				}()
+				if r := guard.Call(func() { errs[place] = results[place].FromWireFormat(buf) }); r != nil {
+					errs[place] = fmt.Errorf("panic: %v", r)
+					if place >= 3 {
+						rep("fromwire-reads-outside", "FromWireFormat on a %d-byte buffer placed against an inaccessible page (placement %d) faulted: it touches memory outside the buffer: %v", n, place, r)
+					} else {
+						rep("fromwire-panic", "FromWireFormat panicked on a %d-byte buffer: %v", n, r)
+					}
+				}
 			}
 			evals++
 			if n < minStatus {
-				for place := 0; place < 3; place++ {
+				for place := 0; place < 5; place++ {
 					if !errors.Is(errs[place], io.ErrUnexpectedEOF) {
 						rep("fromwire-short-accepted", "FromWireFormat on %d bytes (< 32) returned %v, want io.ErrUnexpectedEOF", n, errs[place])
 						break
@@ -431,7 +495,7 @@ func checkC16(tier string) int {
 					want[i] = binary.LittleEndian.Uint32(b[:])
 				}
 			}
-			for place := 0; place < 3; place++ {
+			for place := 0; place < 5; place++ {
 				st := results[place]
 				got := [11]uint32{uint32(st.Mask), st.Enabled, st.Failure, st.PID, st.RateLimit, st.BacklogLimit, st.Lost, st.Backlog, st.FeatureBitmap, st.BacklogWaitTime, st.BacklogWaitTimeActual}
 				if got != want {
@@ -445,7 +509,7 @@ func checkC16(tier string) int {
 	run.Sample("FromWireFormat(36-byte buffer inside a poisoned array) => 9 fields decoded, BacklogWaitTime and BacklogWaitTimeActual zero")
 	run.Set("evaluations", evals)
 	run.Set("distinct_nontrivial", nontrivial)
-	run.Set("rule", "every setter x value domain (all one-bit and all-but-one-bit values, boundaries, all 2^10 (quick) / 2^16 (thorough) low-half and high-half values) x both wait modes decoded at fixed UAPI offsets; GetStatus over one-hot field patterns; 20 exported constants against numbers transcribed from linux/audit.h; FromWireFormat over every length 0..80 x 3 contents x 3 placements (cap==len, inside 0xAA poison, inside 0x55 poison). non-trivial = case with a non-zero value/field that matched the independent expectation")
+	run.Set("rule", "every setter x value domain (all one-bit and all-but-one-bit values, boundaries, all 2^10 (quick) / 2^16 (thorough) low-half and high-half values) x both wait modes decoded at fixed UAPI offsets; GetStatus over one-hot field patterns; 20 exported constants against numbers transcribed from linux/audit.h; FromWireFormat over every length 0..80 x 3 contents x 5 placements (cap==len, inside 0xAA poison, inside 0x55 poison, flush against an inaccessible page at the end / at the start: an access outside the buffer faults); GetStatus replies of every length 0..80 flush against an inaccessible page; an AUDIT_GET reply that overtakes its acknowledgement. non-trivial = case with a non-zero value/field that matched the independent expectation")
 	run.Set("exhaustive", true)
 	run.Assume("little-endian host (amd64); expectations come from refdata transcriptions of linux/audit.h, not from the library's constants")
 	return run.Finish()
